@@ -15,7 +15,10 @@ struct Node {
     log: Log,
     stages: usize,
     children: Vec<String>,
+    /// path -> id the module at that path saw for itself in its first start stage
+    ids: Ids,
 }
+type Ids = Arc<Mutex<std::collections::BTreeMap<String, String>>>;
 impl Module for Node {
     fn num_sim_start_stages(&self) -> usize {
         self.stages
@@ -23,6 +26,7 @@ impl Module for Node {
     fn at_sim_start(&mut self, st: usize) {
         self.log.lock().unwrap().push(format!("start:{}:{}", self.path, st));
         if st == 0 {
+            self.ids.lock().unwrap().insert(self.path.clone(), format!("{:?}", current().id()));
             // keeps the simulation busy so that "after the last event" is observable
             schedule_in(Message::default().kind(1), Duration::from_secs(1 + self.path.len() as u64));
         }
@@ -33,13 +37,15 @@ impl Module for Node {
     fn at_sim_end(&mut self) -> Result<(), RuntimeError> {
         let me = current();
         let exp_parent = self.path.rsplit_once('.').map(|p| p.0.to_string());
+        let ids = self.ids.lock().unwrap().clone();
+        let same = |m: &ModuleRef, path: &str| m.path().as_str() == path && ids.get(path) == Some(&format!("{:?}", m.id()));
         let parent_ok = match &exp_parent {
-            Some(p) => me.parent().map(|m| m.path().as_str() == p).unwrap_or(false),
+            Some(p) => me.parent().map(|m| same(&m, p)).unwrap_or(false),
             None => me.parent().is_err(),
         };
         let children_ok = self.children.iter().all(|c| {
             let name = c.rsplit_once('.').map_or(c.as_str(), |x| x.1);
-            me.child(name).map(|m| m.path().as_str() == c).unwrap_or(false)
+            me.child(name).map(|m| same(&m, c)).unwrap_or(false)
         }) && me.child("no-such-child").is_err();
         let name_ok = me.name() == self.path.rsplit_once('.').map_or(self.path.as_str(), |x| x.1);
         self.log.lock().unwrap().push(format!(
@@ -77,6 +83,9 @@ struct Case {
     order: Vec<usize>,
     /// number of start stages per node (1..=3)
     stages: Vec<usize>,
+    /// after every insertion every path inserted so far is offered again, and an orphan is
+    /// offered; each offer must be rejected and must leave the builder as it was
+    offers: bool,
 }
 
 fn paths(parent: &[Option<usize>]) -> Vec<String> {
@@ -91,13 +100,14 @@ fn paths(parent: &[Option<usize>]) -> Vec<String> {
 }
 
 fn case_json(c: &Case) -> Value {
-    json!({"parent": c.parent, "paths": paths(&c.parent), "insertion_order": c.order, "stages": c.stages})
+    json!({"parent": c.parent, "paths": paths(&c.parent), "insertion_order": c.order, "stages": c.stages, "rejected_offers_in_between": c.offers})
 }
 fn case_from(v: &Value) -> Case {
     Case {
         parent: v["parent"].as_array().unwrap().iter().map(|p| p.as_u64().map(|x| x as usize)).collect(),
         order: v["insertion_order"].as_array().unwrap().iter().map(|p| p.as_u64().unwrap() as usize).collect(),
         stages: v["stages"].as_array().unwrap().iter().map(|p| p.as_u64().unwrap() as usize).collect(),
+        offers: v["rejected_offers_in_between"].as_bool().unwrap_or(false),
     }
 }
 
@@ -110,10 +120,29 @@ fn run_inner(c: &Case) -> Result<u64, String> {
     let n = c.parent.len();
     let ps = paths(&c.parent);
     let log: Log = Default::default();
+    let ids: Ids = Default::default();
     let mut sim = Sim::new(());
-    for &i in &c.order {
+    for (k, &i) in c.order.iter().enumerate() {
         let children: Vec<String> = (0..n).filter(|&k| c.parent[k] == Some(i)).map(|k| ps[k].clone()).collect();
-        sim.node(ps[i].as_str(), Node { path: ps[i].clone(), log: log.clone(), stages: c.stages[i], children });
+        sim.node(ps[i].as_str(), Node { path: ps[i].clone(), log: log.clone(), stages: c.stages[i], children, ids: ids.clone() });
+        if c.offers {
+            let junk: Log = Default::default();
+            let mut offer = |p: String| -> bool {
+                let nd = Node { path: format!("offered:{p}"), log: junk.clone(), stages: 1, children: vec![], ids: Default::default() };
+                std::panic::catch_unwind(std::panic::AssertUnwindSafe(|| {
+                    sim.node(p.as_str(), nd);
+                }))
+                .is_ok()
+            };
+            for &j in &c.order[..=k] {
+                if offer(ps[j].clone()) {
+                    return Err(format!("the duplicate path '{}' was accepted by the builder", ps[j]));
+                }
+            }
+            if offer(format!("{}.zz.q", ps[i])) {
+                return Err(format!("the node '{}.zz.q', whose parent does not exist, was accepted by the builder", ps[i]));
+            }
+        }
     }
     let r = Builder::seeded(1).quiet().build(sim.freeze()).run();
     if let Err(e) = &r {
@@ -167,7 +196,7 @@ fn run_inner(c: &Case) -> Result<u64, String> {
 
 /// builder rejections: kind 0 = duplicate path at depth d, kind 1 = node whose parent is missing
 fn rejection(kind: u8, depth: usize) -> Result<(), String> {
-    let mk = |p: &str| Node { path: p.into(), log: Default::default(), stages: 1, children: vec![] };
+    let mk = |p: &str| Node { path: p.into(), log: Default::default(), stages: 1, children: vec![], ids: Default::default() };
     let chain: Vec<String> = (0..depth).map(|d| NAMES[..=d].join(".")).collect();
     let accepted = std::sync::Arc::new(Mutex::new(false));
     let acc = accepted.clone();
@@ -202,8 +231,8 @@ impl Property for C12 {
     fn rule(&self, tier: Tier) -> String {
         format!(
             "every rooted forest with 1..={} nodes (names a, ab, b, a1, abc, c: prefix-sharing siblings and parent/child names) x every linear extension of parent-before-child as insertion order x every assignment of 1..3 start stages (for up to {} nodes; larger trees: all assignments with at most 2 nodes deviating from 1 stage); \
-             oracle: at_sim_start log == stage-major, depth-first pre-order with siblings in creation order, exactly once per declared stage, all before the first event; at_sim_end exactly once per module after the last event; parent()/child()/path()/name() agree with the declared tree; \
-             duplicate path and missing parent rejected at depths 1..3; non-trivial = forest with at least 3 nodes",
+             oracle: at_sim_start log == stage-major, depth-first pre-order with siblings in creation order, exactly once per declared stage, all before the first event; at_sim_end exactly once per module after the last event; parent()/child()/path()/name() agree with the declared tree, and the module a lookup returns is the declared one (same id as that module sees for itself); \
+             duplicate path and missing parent rejected at depths 1..3; per (forest, insertion order) one more run in which, after every insertion, every path inserted so far and an orphan are offered again: each offer must be rejected and the run must be unchanged; non-trivial = forest with at least 3 nodes",
             tier.pick(5, 6),
             tier.pick(4, 4)
         )
@@ -212,7 +241,7 @@ impl Property for C12 {
         vec!["modules are created through the simulation builder (Sim::node); NDL-built trees are C18's subject".into()]
     }
     fn required_features(&self, _tier: Tier) -> Vec<&'static str> {
-        vec!["interleaved_children_of_different_parents", "multi_stage_module", "depth_three_tree", "builder_rejections", "several_roots"]
+        vec!["interleaved_children_of_different_parents", "multi_stage_module", "depth_three_tree", "builder_rejections", "several_roots", "rejected_offers_between_insertions"]
     }
     fn explore(&self, ctx: &mut Ctx) {
         if ctx.is_first_shard() {
@@ -280,11 +309,14 @@ impl Property for C12 {
                     }
                     // children of different parents interleaved in the insertion order
                     let interleaved = perm.windows(3).any(|w| par[w[0]].is_some() && par[w[0]] == par[w[2]] && par[w[1]] != par[w[0]] && par[w[1]].is_some());
-                    for stages in &stage_sets {
+                    for (si, stages) in stage_sets.iter().enumerate().flat_map(|(i, s)| if i == 0 { vec![(0usize, s), (usize::MAX, s)] } else { vec![(i, s)] }) {
                         if !ctx.mine() {
                             continue;
                         }
-                        let c = Case { parent: par.clone(), order: perm.clone(), stages: stages.clone() };
+                        let c = Case { parent: par.clone(), order: perm.clone(), stages: stages.clone(), offers: si == usize::MAX };
+                        if c.offers {
+                            ctx.hit("rejected_offers_between_insertions");
+                        }
                         ctx.out.evaluations += 1;
                         ctx.out.traces += 1;
                         ctx.out.states += 1;
